@@ -208,6 +208,67 @@ fn entry_oracle(out: &str, sink: &mut Sink) {
             }
         }
     }
+    // ---- the report handed to the callback for TYPED targets, including the recursive anchor wrappers (whose self-referencing
+    // alias is answered by a placeholder instead of a replay): events / nodes / aliases / anchors equal an independent count
+    // over the raw parser events (a self-reference adds nothing beyond its own alias event), and a budget set exactly to
+    // that usage accepts
+    {
+        use serde_saphyr::{RcRecursion, RcRecursive};
+        #[derive(serde::Deserialize)]
+        #[allow(dead_code)]
+        struct RNode { name: String, #[serde(default)] me: Option<RcRecursion<RNode>>, #[serde(default)] kids: Vec<RcRecursive<RNode>>, #[serde(default)] back: Vec<RcRecursion<RNode>> }
+        #[derive(serde::Deserialize)]
+        #[allow(dead_code)]
+        struct RDoc { root: RcRecursive<RNode> }
+        let docs = [
+            "root: &r\n  name: top\n  me: *r\n",
+            "root: &r\n  name: top\n  back: [*r, *r]\n",
+            "root: &r\n  name: top\n  kids:\n    - &k\n      name: kid\n      me: *k\n      back: [*r]\n    - name: other\n      back: [*r, *r]\n",
+            "root:\n  name: plain\n",
+        ];
+        for text in docs {
+            // independent count over the raw parser events
+            let (mut ev, mut nodes, mut aliases) = (0usize, 0usize, 0usize);
+            let mut anchors = std::collections::BTreeSet::new();
+            for item in saphyr_parser::Parser::new_from_str(text) {
+                let Ok((e, _)) = item else { break };
+                ev += 1;
+                match e {
+                    Event::Scalar(_, _, a, _) => { nodes += 1; if a != 0 { anchors.insert(a); } }
+                    Event::SequenceStart(a, _) | Event::MappingStart(a, _) => { nodes += 1; if a != 0 { anchors.insert(a); } }
+                    Event::Alias(_) => { aliases += 1; }
+                    _ => {}
+                }
+            }
+            let seen: std::rc::Rc<std::cell::RefCell<Option<BudgetReport>>> = Default::default();
+            let s2 = seen.clone();
+            let mut o = Options::default();
+            o.budget = Some(unlimited());
+            let o = o.with_budget_report(move |r| { *s2.borrow_mut() = Some(r.clone()); });
+            let r = serde_saphyr::from_str_with_options::<RDoc>(text, o);
+            sink.count("entry_oracle.typed_report");
+            let rep = seen.borrow().clone();
+            match (r, rep) {
+                (Ok(_), Some(rep)) => {
+                    let got = (rep.events, rep.nodes, rep.aliases, rep.anchors);
+                    let want = (ev, nodes, aliases, anchors.len());
+                    if got != want {
+                        fails.push(serde_json::json!({"id": "C07-typed-report-differs-from-count", "what": "report (events, nodes, aliases, anchors) for a typed target with recursive anchor wrappers differs from the count over the parser's events", "input": text, "observed": format!("{got:?}"), "expected": format!("{want:?}")}));
+                    }
+                    // limit = usage accepts
+                    let mut o = Options::default();
+                    let mut bd = unlimited();
+                    bd.max_events = rep.events; bd.max_nodes = rep.nodes; bd.max_aliases = rep.aliases; bd.max_anchors = rep.anchors;
+                    o.budget = Some(bd);
+                    if let Err(e) = serde_saphyr::from_str_with_options::<RDoc>(text, o) {
+                        fails.push(serde_json::json!({"id": "C07-exact-limits-rejected", "what": "a budget equal to the reported usage rejects the document", "input": text, "observed": crate::errs::kind(&e), "expected": "ok"}));
+                    }
+                }
+                (Err(e), _) => fails.push(serde_json::json!({"id": "C07-typed-report-differs-from-count", "what": "recursive document rejected under an unlimited budget", "input": text, "observed": crate::errs::kind(&e), "expected": "ok"})),
+                (Ok(_), None) => fails.push(serde_json::json!({"id": "C07-report-callback-count", "what": "no report for a typed recursive document", "input": text, "observed": "0", "expected": "1"})),
+            }
+        }
+    }
     let lines: Vec<String> = fails.iter().map(|f| f.to_string()).collect();
     std::fs::write(format!("{out}/c07.oracle.jsonl"), lines.join("\n")).unwrap();
 }
